@@ -94,9 +94,11 @@ def _fam_cfg(ctx, tier_cfg, fam, override=()):
 # families that share a TLC run (JVM start-up dominates the small ones)
 FAM_GROUPS = {"tg": "tg+tgu", "tgu": "tg+tgu", "ctm": "ctm+trnid", "trnid": "ctm+trnid"}
 # deliberately wrong definitions that the design invariants of a family must reject (non-vacuity of the
-# universes: a tier spanning "first listed .. last listed", a reader stripping the utterance id)
+# universes: a tier spanning "first listed .. last listed", a reader stripping the utterance id, a ctm reader that
+# takes only positional decimals for numbers)
 FAULTS = {"tgu": ((("TguLo", "TguLoFirstListed"), ("TguHi", "TguHiLastListed")), "TguRoundTrip"),
-          "trnid": ((("ReadId", "ReadIdStripping"),), "TrnIdRoundTrip")}
+          "trnid": ((("ReadId", "ReadIdStripping"),), "TrnIdRoundTrip"),
+          "ctm": ((("CtmFieldOK", "CtmFieldPlainOnly"),), "CtmRoundTrip")}
 
 
 def _tok8_cfg(ctx, tier_cfg):
